@@ -166,6 +166,14 @@ def run(prop, tier):
             if o["fail"]:
                 site, kind, detail = o["fail"]
                 res.fail(site, kind, detail, {"corrupted_from": o["path"], "seed": o["seed"], "how": o["how"], "text": o.get("text")})
+    # >>> WP1 layer P: translated productions vs the real ones (coverage["layerP"])
+    try:
+        import props_prog
+
+        props_prog.extra(res, tier)
+    except ImportError:
+        pass
+    # <<< WP1 layer P
     ncli = cli_runs(res, 3 if tier == "quick" else 3)
     import props_bcase
 
